@@ -3,15 +3,21 @@
 // marker file named by VERIF_MARKER (so that a caller can tell whether the
 // target was started at all), then issues the probe syscalls given as
 // arguments ("nr:a0:a1:...") and prints one JSON line with the errno of each
-// and the Seccomp / NoNewPrivs fields of its own status.
+// and the Seccomp / NoNewPrivs fields of its own status. If VERIF_FATAL_PROBE
+// names one more probe, it is issued last, on an OS thread of its own: the
+// second JSON line says whether the call returned (and with which errno) or
+// the thread never came back (the filter answered kill_thread); an answer of
+// kill_process or trap ends the process, which the caller sees in the status.
 package main
 
 import (
 	"encoding/json"
 	"fmt"
 	"os"
+	"runtime"
 	"strconv"
 	"strings"
+	"time"
 
 	"verifharness/probe"
 )
@@ -30,7 +36,7 @@ func main() {
 		Probes []res        `json:"probes"`
 		Status probe.Status `json:"status"`
 	}{}
-	for _, a := range os.Args[1:] {
+	parse := func(a string) (uintptr, [6]uint64) {
 		parts := strings.Split(a, ":")
 		nr, err := strconv.ParseUint(parts[0], 0, 64)
 		if err != nil {
@@ -41,8 +47,29 @@ func main() {
 		for i := 1; i < len(parts) && i <= 6; i++ {
 			args[i-1], _ = strconv.ParseUint(parts[i], 0, 64)
 		}
-		out.Probes = append(out.Probes, res{a, int(probe.Call(uintptr(nr), args))})
+		return uintptr(nr), args
+	}
+	for _, a := range os.Args[1:] {
+		nr, args := parse(a)
+		out.Probes = append(out.Probes, res{a, int(probe.Call(nr, args))})
 	}
 	out.Status, _ = probe.ReadStatus(probe.Gettid())
 	json.NewEncoder(os.Stdout).Encode(out)
+	if fp := os.Getenv("VERIF_FATAL_PROBE"); fp != "" {
+		nr, args := parse(fp)
+		done := make(chan int, 1)
+		go func() {
+			runtime.LockOSThread() // never unlocked: if the thread is killed nothing else runs on it
+			done <- int(probe.Call(nr, args))
+		}()
+		verdict := "thread-gone"
+		select {
+		case e := <-done:
+			verdict = fmt.Sprintf("returned:%d", e)
+		case <-time.After(1500 * time.Millisecond):
+		}
+		json.NewEncoder(os.Stdout).Encode(map[string]string{"fatal": verdict})
+		os.Stdout.Sync()
+		os.Exit(0)
+	}
 }
